@@ -10,7 +10,8 @@ from .common import SqlObs, classify_basic, rows_digest
 RULE = (
     "every program of public factory calls in the SQL engine (six unary operations, join with/without predicate in "
     "both operand orders, chain; operands from a fixed pool incl. chains, projected siblings, sliced/deduplicated "
-    "partners) up to the depth bound from every root leaf configuration; one evaluation = real factory call + "
+    "partners) up to the depth bound from every root leaf configuration, plus every program of depth <= 2 (thorough 3) over a "
+    "17-operation alphabet from EVERY leaf table of <= 2 rows over a 2x2x2 value cube (73 tables); one evaluation = real factory call + "
     "to_executable + compile + run on SQLite in both physical scan orders, compared with the reference evaluator "
     "(list if the order is determined, multiset otherwise, weak if a slice consumed an unordered input); "
     "non-trivial = program depth >= 2; distinct = distinct (tree, rows) digests"
@@ -22,13 +23,17 @@ class C02(Check):
 
     def subspaces(self, tier):
         w = spaces.sql_world()
+        dw, droots = spaces.sql_data_world(2)
+        data = SubSpace("sqldata/all-tables<=2/d2", dw, droots, spaces.SQL_DATA_OPS, 2)
         if tier == "quick":
             return [
+                data,
                 SubSpace("sql/full/d2", w, spaces.SQL_ROOTS_ALL[1:], spaces.SQL_FULL, 2),
                 SubSpace("sql/full/X/d3", w, ("X",), spaces.SQL_FULL, 3),
                 SubSpace("sql/reduced/X/d4", w, ("X",), spaces.SQL_REDUCED, 4),
             ]
         return [
+            SubSpace("sqldata/all-tables<=2/d3", dw, droots, spaces.SQL_DATA_OPS, 3),
             SubSpace("sql/full/d3", w, spaces.SQL_ROOTS_ALL[1:], spaces.SQL_FULL, 3),
             SubSpace("sql/full/X/d4", w, ("X",), spaces.SQL_FULL, 4),
             SubSpace("sql/reduced/X/d5", w, ("X",), spaces.SQL_REDUCED, 5),
